@@ -312,6 +312,10 @@ def run_job(job, spec_blocks, keep=False, scratch_root=None):
                          text=_src_line(f, line) if f.startswith("/") else "",
                          vacuity=desc.startswith("VACUITY"))
                 res.obligations.append(o)
+            if any(o["status"] == "ERROR" for o in res.obligations):
+                res.undecided = "OUT-OF-MEMORY or solver error (limit %d GB): %s" % (
+                    job.mem_gb, " ".join(l for l in msgs.splitlines() if "memory" in l.lower())[:200])
+                return res
             vac = [o for o in res.obligations if o["vacuity"]]
             res.vacuity_ok = bool(vac) and all(o["status"] == "FAILURE" for o in vac)
             if not vac:
